@@ -2,6 +2,11 @@
 
 T-gen : Gen/Window.v = img_tools.get_window translated statement by statement (ast); the
         theorems of Props/C16.v about the window are proved on that generated definition.
+        Gen/DatasetFns.v = add_disparity, add_classif, add_segm, add_no_data, add_mask and
+        create_dataset_from_inputs translated statement by statement (translator/gen_dataset_fns.py)
+        over the numpy / xarray / rasterio primitives of Model/DatasetPrims.v; Props/C16.v re-proves at
+        every run that they compute what Model/Dataset.v computes, for all inputs (C16_gen_*_eq), and
+        restates the theorems of the property on the generated create_dataset_from_inputs.
 T-corr: Model/Dataset.v (extracted) against the real create_dataset_from_inputs / get_metadata
         on GeoTIFFs written by this harness with rasterio into a tempfile.mkdtemp() directory
         (outside /repo and /verif, removed at the end).
@@ -18,7 +23,7 @@ import numpy as np
 
 from harness import core
 
-GEN = ["gen_window"]
+GEN = ["gen_window", "gen_dataset_fns"]
 EXTRACT_FILES = ["X16"]
 DRIVERS = ["x16"]
 RULE = ("ROI sweep on a 5x4 raster: every (first,last) pair in [-3, n+2] per axis with zero margins (exhaustive), plus a "
@@ -36,7 +41,11 @@ ASSUMES = [
     "mask_semantics / samples_unchanged carry the explicit guard 'no sample is the infinity opposite to nodata'; such "
     "inputs are counted in stats (observed_opposite_inf) and not judged",
 ]
-TRUSTED = ["Gen/Window.v produced by translator/gen_window.py from the ast of img_tools.get_window"]
+TRUSTED = ["Gen/Window.v produced by translator/gen_window.py from the ast of img_tools.get_window",
+           "Gen/DatasetFns.v produced by translator/gen_dataset_fns.py from the ast of add_disparity, add_classif, add_segm, "
+           "add_no_data, add_mask, create_dataset_from_inputs; Model/DatasetPrims.v states the semantics of the numpy / xarray / "
+           "rasterio constructs they use (vectorised expressions pixel by pixel, np.where as the set of selected cells, "
+           "boolean-index assignment, windowed reads, Dataset updates as record updates)"]
 
 NODATAS = [-9999, 0, 7, float("nan"), float("inf"), float("-inf")]
 MASK_VALUES = [-5, -1, 0, 0, 0, 1, 2, 255]
@@ -602,8 +611,17 @@ def run(ctx):
                                           f"with bands {case['names']}", {"case": case})
     finally:
         shutil.rmtree(tmp, ignore_errors=True)
-    ctx.gen_obligations = ["the window theorems of Props/C16.v are proved on Gen.Window.get_window itself (regenerated "
-                           "from img_tools.get_window at every run; lia after case analysis, all Z)"]
+    ctx.gen_obligations = [
+        "the window theorems of Props/C16.v are proved on Gen.Window.get_window itself (regenerated from "
+        "img_tools.get_window at every run; lia after case analysis, all Z)",
+        "C16_gen_add_disparity_eq: Gen.DatasetFns.add_disparity (regenerated) = the record update the model describes, all inputs",
+        "C16_gen_add_classif_segm_eq: Gen.DatasetFns.add_classif / add_segm (regenerated) = the windowed reads the model describes",
+        "C16_gen_add_no_data_eq: Gen.DatasetFns.add_no_data (regenerated) = Model.Dataset add_no_data_im / add_no_data_attr",
+        "C16_gen_add_mask_eq: Gen.DatasetFns.add_mask (regenerated) = Model.Dataset.add_mask (three-way classification, early return)",
+        "C16_gen_create_eq: Gen.DatasetFns.create_dataset_from_inputs (regenerated; get_window, which window goes to which read, "
+        "the nodata test, the order of the add_* calls) = Gen.Window.get_window then Model.Dataset.create_dataset, all inputs",
+        "C16_gen_read_dtypes: the out_dtype of the six raster reads as regenerated (reflexivity)",
+    ]
 
 
 def random_roi(rng, rows, cols):
